@@ -236,6 +236,43 @@ def check_previous_locales(ctx, strings, langs, ugo):
         ctx.nontrivial("prev", tuple(fed[-3:]), tuple(langs), ugo)
 
 
+def check_longlived_defaults(ctx, strings, langs, dl, ugo):
+    """A parser kept for many strings (try_previous_locales off, the default) must answer each string as a parser made for
+    that string alone does: which locales already produced results must not matter, for the selection or the
+    DEFAULT_LANGUAGES fallback."""
+    from dateparser.data.languages_info import language_order
+    from dateparser.date import DateDataParser
+
+    st = {"RELATIVE_BASE": B, "DEFAULT_LANGUAGES": list(dl)}
+    try:
+        p = DateDataParser(languages=list(langs), use_given_order=ugo, settings=st)
+    except Exception:
+        return
+    fed = []
+    for s in strings:
+        fed.append(s)
+        case = {"kind": "long-lived-defaults", "strings": list(fed), "languages": list(langs), "DEFAULT_LANGUAGES": list(dl),
+                "use_given_order": ugo}
+        try:
+            m = p.get_date_data(s)
+            f = DateDataParser(languages=list(langs), use_given_order=ugo, settings=st).get_date_data(s)
+        except Exception:
+            ctx.count("long-lived raised (C02's subject)")
+            return
+        ctx.ran()
+        got, exp = (m["date_obj"], m["period"], m["locale"]), (f["date_obj"], f["period"], f["locale"])
+        feats = {"kind": "long-lived-defaults", "ugo": ugo, "has_default": True}
+        if got[2] is not None and languages_of(got[2], language_order) not in list(langs) + list(dl):
+            ctx.violation(case, got, "a locale of the selection or of DEFAULT_LANGUAGES", "locale-outside-selection", feats)
+            return
+        if got != exp:
+            ctx.violation(case, got, exp, "composition", feats)
+            return
+        ctx.count("long-lived-defaults:%s" % ("fallback" if got[2] and languages_of(got[2], language_order) in dl
+                                              and languages_of(got[2], language_order) not in langs else "other"))
+        ctx.nontrivial("lld", tuple(fed[-2:]), tuple(langs), tuple(dl), ugo)
+
+
 def check_autodetect(ctx, s):
     from dateparser.date import DateDataParser
 
@@ -296,6 +333,16 @@ def run_compose(ctx, desc):
         feed = [r[0] for r in picked] * 2 + ["02/03/2015", "1.2.2003", rnd.choice(strs), "12/31/15 10:30", rnd.choice(strs)]
         rnd.shuffle(feed)
         check_previous_locales(ctx, feed, langs, rnd.random() < 0.5)
+    # long-lived parsers whose strings are only read by the DEFAULT_LANGUAGES fallback (the selection does not know them)
+    for t in range(10 if ctx.tier == "quick" else 50):
+        picked = [r for r in rnd.sample(rows, min(len(rows), 6)) if r[2] in language_order][:3]
+        if not picked:
+            continue
+        dl = list(dict.fromkeys(r[2] for r in picked))
+        langs = [L for L in rnd.sample(language_order[40:120], 2) if L not in dl] or ["ja"]
+        feed = [r[0] for r in picked] * 3
+        rnd.shuffle(feed)
+        check_longlived_defaults(ctx, feed, langs, dl, rnd.random() < 0.5)
     if desc["i"] == 0:
         zc = zone_word_cases()
         ctx.count("zone_word_cases", len(zc))
@@ -535,6 +582,10 @@ def replay_case(ctx, v):
         check_compose_locales(ctx, c["string"], c["locales"], c["use_given_order"])
     elif c["kind"] == "compose":
         check_compose(ctx, c["string"], None, c["languages"], c["use_given_order"], c["DEFAULT_LANGUAGES"])
+    elif c["kind"] == "previous-locales":
+        check_previous_locales(ctx, c["strings"], c["languages"], c["use_given_order"])
+    elif c["kind"] == "long-lived-defaults":
+        check_longlived_defaults(ctx, c["strings"], c["languages"], c["DEFAULT_LANGUAGES"], c["use_given_order"])
     elif c["kind"] == "autodetect":
         check_autodetect(ctx, c["string"])
     elif c["kind"] == "region":
